@@ -110,6 +110,11 @@ class World:
             ".backend": backend_shim,
         }
         self.re = _load("loky.reusable_executor", "loky/reusable_executor.py", rshims)
+        # per simulated process pickler selection (the real one is interpreter-global)
+        self.pickler = {}
+
+        self.pe.set_loky_pickler = simtasks.sim_set_pickler
+        self.pe.get_loky_pickler_name = simtasks.sim_get_pickler
         self.pe._global_shutdown_lock.label = "gshut"
         self.re._executor_lock.label = "execlock"
         # label the kernel objects of every executor right after construction (harness glue)
@@ -275,11 +280,13 @@ def run_scenario(scen, chooser_factory, max_steps=4000, observe=True):
     E.set_world(world)
     simtasks.LOG.clear()
     simtasks.INIT_LOG.clear()
+    simtasks.PICKLER_LOG.clear()
     H = Holder()
     H.ex = None
     H.futs = {}
     H.by_wid = []
     H.reuse_calls = []
+    H.pickler_at_submit = {}
     H.api = []              # (user, op index, op, outcome)
     H.cancel_ok = {}
     tasks = scen.get("tasks", [])
@@ -347,6 +354,7 @@ def run_scenario(scen, chooser_factory, max_steps=4000, observe=True):
                         f.add_done_callback(simtasks.cb_raise if cb == "raise" else simtasks.cb_ok)
                     H.futs[k] = f
                     H.by_wid.append((k, f))
+                    H.pickler_at_submit[k] = PE.get_loky_pickler_name()
             elif kind == "cancel":
                 f = H.futs.get(op[1])
                 if f is None:
@@ -361,6 +369,8 @@ def run_scenario(scen, chooser_factory, max_steps=4000, observe=True):
                     out = "noexec"
                 else:
                     ex.shutdown(wait=op[1], kill_workers=op[2])
+            elif kind == "setpickler":
+                PE.set_loky_pickler(op[1])
             elif kind == "drop":
                 H.ex = None
             elif kind == "pyexit":
@@ -448,6 +458,8 @@ def run_scenario(scen, chooser_factory, max_steps=4000, observe=True):
                          and o.owner.kind == "proc" and not o.owner.proc.alive},
         "dropped": H.ex is None,
         "reuse_calls": H.reuse_calls,
+        "pickler_at_submit": {str(k): v for k, v in H.pickler_at_submit.items()},
+        "pickler_in_worker": [list(x) for x in simtasks.PICKLER_LOG],
     }
     for k, f in H.futs.items():
         r = {"state": fut_obs(f)}
@@ -457,6 +469,8 @@ def run_scenario(scen, chooser_factory, max_steps=4000, observe=True):
                 r["exc_type"] = type(ex_).__name__
                 r["exc_args"] = repr(getattr(ex_, "args", None))[:120]
                 r["cause"] = type(ex_.__cause__).__name__ if ex_.__cause__ is not None else None
+                if os.environ.get("VERIF_DEBUG"):
+                    r["cause_text"] = str(ex_.__cause__)[-600:]
                 r["is_bpp"] = isinstance(ex_, PE._BPPException)
                 r["is_flag"] = any(ex_ is i["flags"].broken for i in world.executors)
             else:
